@@ -6,61 +6,9 @@
      Python    `N / D` on ints: CPython's true division is correctly rounded (one rounding of the exact quotient).
    No proofs here (extracted by ExtractC05.v).  Assumptions about compilers / CPython are listed in design_notes/C05.md. *)
 From Coq Require Import List NArith ZArith Bool.
-From Verif Require Import Str MetaC05Base Gen_C05 MetaC05.
+From Verif Require Import Str MetaC05Base MetaC05Rne Gen_C05 MetaC05.
 Import ListNotations.
 Local Open Scope Z_scope.
-
-Record fmt : Type := { f_prec : Z; f_emin : Z; f_emax : Z }.
-Definition binary64 : fmt := {| f_prec := 53; f_emin := -1022; f_emax := 1023 |}.
-Definition binary32 : fmt := {| f_prec := 24; f_emin := -126; f_emax := 127 |}.
-
-(* finite: (-1)^neg * m * 2^q with 0 <= m < 2^prec, q >= emin - prec + 1 *)
-Inductive fval : Type := FFin (neg : bool) (m q : Z) | FInf (neg : bool).
-
-(* nearest integer to N / D (N >= 0, D > 0), ties to even *)
-Definition div_half_even (N D : Z) : Z :=
-  let q := N / D in
-  let r := N mod D in
-  match (2 * r) ?= D with
-  | Lt => q
-  | Gt => q + 1
-  | Eq => if Z.even q then q else q + 1
-  end.
-
-(* a / b (b > 0) rounded to nearest even in format f *)
-Definition rne (f : fmt) (a b : Z) : fval :=
-  let neg := a <? 0 in
-  let a := Z.abs a in
-  if a =? 0 then FFin neg 0 (f_emin f - f_prec f + 1)
-  else
-    let e0 := Z.log2 a - Z.log2 b in
-    (* 2^e <= a/b < 2^(e+1) *)
-    let below := a * 2 ^ (Z.max (- e0) 0) <? b * 2 ^ (Z.max e0 0) in
-    let e := if below then e0 - 1 else e0 in
-    let q := Z.max e (f_emin f) - (f_prec f - 1) in
-    let m := div_half_even (a * 2 ^ (Z.max (- q) 0)) (b * 2 ^ (Z.max q 0)) in
-    let '(m, q) := if m =? 2 ^ f_prec f then (2 ^ (f_prec f - 1), q + 1) else (m, q) in
-    if f_emax f <? q + f_prec f - 1 then FInf neg else FFin neg m q.
-
-(* exact rational value (numerator, positive denominator) of a finite value, with the common powers of two cancelled (so that an
-   integer value reads (z, 1)) *)
-Fixpoint strip2 (m : positive) (k : nat) : positive * nat :=
-  match k, m with
-  | S k', xO m' => strip2 m' k'
-  | _, _ => (m, k)
-  end.
-
-Definition fval_q (x : fval) : option (Z * Z) :=
-  match x with
-  | FFin neg m q =>
-      if 0 <=? q then Some ((if neg then - m else m) * 2 ^ q, 1)
-      else match m with
-           | Zpos p => let '(p', k') := strip2 p (Z.to_nat (- q)) in
-                       Some ((if neg then Zneg p' else Zpos p'), 2 ^ Z.of_nat k')
-           | _ => Some (0, 1)
-           end
-  | FInf _ => None
-  end.
 
 (* IEEE division of two values of format f *)
 Definition fdiv (f : fmt) (x y : fval) : option fval :=
@@ -106,10 +54,6 @@ Definition c_eval32 (rf : (Z * Z) -> str) (n d : Z) : option fval :=
 
 (* Python: n / d is the correctly rounded quotient (a double); the harness prints float32 constants through a cast *)
 Definition py_eval64 (n d : Z) : fval := rne binary64 n d.
-
-(* both operands of the division are exactly representable doubles *)
-Definition exact64 (z : Z) : bool :=
-  match fval_q (rne binary64 z 1) with Some (a, b) => (a =? z) && (b =? 1) | None => false end.
 
 (* certificate for the oracle's decimal constant: it parses, and its exact value rounds to the same double as n/d *)
 Definition oracle_certified (rf : (Z * Z) -> str) (n d : Z) : bool :=
